@@ -338,6 +338,19 @@ func provLeaves(g *Gate, start AV) []AV {
 				return
 			}
 			out = append(out, a)
+		case *ssa.Extract:
+			// one of several results of an expanded helper
+			if call, ok := v.Tuple.(*ssa.Call); ok {
+				if sub := subAt(g, a.Act, call); sub != nil {
+					for _, b := range sub.Fn.Blocks {
+						if r, ok := b.Instrs[len(b.Instrs)-1].(*ssa.Return); ok && v.Index < len(r.Results) {
+							walk(AV{sub, r.Results[v.Index]})
+						}
+					}
+					return
+				}
+			}
+			out = append(out, a)
 		default:
 			out = append(out, a)
 		}
